@@ -229,3 +229,7 @@ impl EntryDeserializer {
         }
     }
 }
+
+#[cfg(kani)]
+#[path = "/verif/harness/foyer-storage/serde.rs"]
+mod verif_kani;
